@@ -48,6 +48,9 @@ var Variants = []VariantInfo{
 var LibVariants = []VariantInfo{
 	{Name: "lib_ok", Class: ClassNone},
 	{Name: "lib_badset", Class: ClassNone, BadSet: true},
+	// lib with an injector of its own that uses HiddenSet (legal inside lib): in one check/show invocation
+	// lib is analysed BEFORE the packages that import it, with one object cache shared by all of them
+	{Name: "lib_inj", Class: ClassOK},
 }
 
 // Info looks a variant up by name.
@@ -455,7 +458,7 @@ func InitBar() Bar {
 }
 `),
 		}
-	case "lib_ok", "lib_badset":
+	case "lib_ok", "lib_badset", "lib_inj":
 		body := `package lib
 
 import (
@@ -487,6 +490,18 @@ var HiddenSet = wire.NewSet(wire.Value(hidden))
 // BadSet provides Dep twice; nobody uses it.
 var BadSet = wire.NewSet(ProvideDep{N}, ProvideDepAlt)
 `
+		}
+		if v == "lib_inj" {
+			return []world.File{f("lib.go", body), f("wire.go", injectHeader+`package lib
+
+import "github.com/google/wire"
+
+// InitHidden uses the set whose value names an unexported variable: fine from inside lib.
+func InitHidden() Hidden {
+	wire.Build(HiddenSet)
+	return Hidden{}
+}
+`)}
 		}
 		return []world.File{f("lib.go", body)}
 	}
